@@ -1,8 +1,8 @@
-------------------------------- MODULE OffsetCore -------------------------------
-(* C11 - operators of the offset core of pfst (pure; the state machine is    *)
-(* Offset.tla, recorded executions are judged by OffsetTrace.tla):           *)
-(* `put_src(code, ln, col, end_ln, end_col,    *)
-(* action='offset')` on span trees over a small text grid.                    *)
+----------------------------- MODULE OffsetCore ------------------------------
+(* C11 - operators of the offset core of pfst (pure; the state machine is     *)
+(* Offset.tla, recorded executions are judged by OffsetTrace.tla):            *)
+(* `put_src(code, ln, col, end_ln, end_col, action='offset')` on span trees   *)
+(* over a small text grid.                                                    *)
 (*                                                                            *)
 (* Text.  A text is a sequence of ATOMS (tokens, width 1; zero-width atoms    *)
 (* for zero-width nodes) separated by GAPS.  A gap is a sequence of naturals  *)
